@@ -25,7 +25,8 @@ package searcher
 //@ spec heapEntriesOK(s *DisjunctionHeapSearcher) bool = all(e, *SearcherCurr, implies(dhas(s, e), entryOK(e)))
 // the first n parked entries: live, not in the heap, pairwise different
 //@ spec parkedOK(s *DisjunctionHeapSearcher, mc []*SearcherCurr, n int) bool = forall(k, 0, n, entryOK(mc[k]) && !dhas(s, mc[k])) && forall(p, 0, n, forall(q, p+1, n, mc[p] != mc[q]))
-//@ spec noAlias(a []*SearcherCurr, b []*SearcherCurr) bool = cap(a) == 0 || cap(b) == 0 || base(a) != base(b)
+// (heap and matchingCurrs are separate allocations; an empty-capacity matchingCurrs has no storage)
+//@ spec noAlias(a []*SearcherCurr, b []*SearcherCurr) bool = cap(b) == 0 || base(a) != base(b)
 //@ spec rootIn(s *DisjunctionHeapSearcher) bool = implies(len(s.heap) > 0, dhas(s, s.heap[0]))
 //@ spec dhsShape(s *DisjunctionHeapSearcher) bool = s.initialized && ddistinct(s) && heapEntriesOK(s) && rootIn(s) && noAlias(s.heap, s.matchingCurrs)
 //@ spec dhsInv(s *DisjunctionHeapSearcher) bool = dhsShape(s) && parkedOK(s, s.matchingCurrs, len(s.matchingCurrs))
@@ -44,7 +45,7 @@ package searcher
 //@ assume func heap.Push(h, x)
 //@   requires typeis(h, *DisjunctionHeapSearcher) && typeis(x, *SearcherCurr) && x.(*SearcherCurr) != nil && all(e, *SearcherCurr, implies(dhas(dsh(h), e), e != nil))
 //@   modifies DisjunctionHeapSearcher.heap, dsh(h).heap[*]
-//@   ensures len(dsh(h).heap) == old(len(dsh(h).heap)) + 1 && (base(dsh(h).heap) == old(base(dsh(h).heap)) || fresh(dsh(h).heap)) && cap(dsh(h).heap) > 0
+//@   ensures len(dsh(h).heap) == old(len(dsh(h).heap)) + 1 && ((old(cap(dsh(h).heap)) > old(len(dsh(h).heap)) && base(dsh(h).heap) == old(base(dsh(h).heap))) || fresh(dsh(h).heap)) && cap(dsh(h).heap) > 0
 //@   ensures rootIn(dsh(h))
 //@   ensures all(y, *SearcherCurr, iff(dhas(dsh(h), y), old(dhas(dsh(h), y)) || y == x.(*SearcherCurr)))
 //@   ensures implies(old(ddistinct(dsh(h))) && !old(dhas(dsh(h), x.(*SearcherCurr))), ddistinct(dsh(h)))
